@@ -979,11 +979,11 @@ def h264_nal(hdr, rbsp, sc):
     return [0] * (sc - 1) + [1] + [hdr] + out
 
 
-def h264_sps(w_mbs, h_mbs, log2_fn, sc):
-    """7.3.2.1.1: baseline profile, level 3, pic_order_cnt_type 2, frames only,
+def h264_sps(w_mbs, h_mbs, log2_fn, sc, level=30):
+    """7.3.2.1.1: baseline profile, level 3 (or `level`), pic_order_cnt_type 2, frames only,
     no cropping, no VUI."""
     b = BitW()
-    b.u(8, 66); b.u(8, 0xC0); b.u(8, 30)
+    b.u(8, 66); b.u(8, 0xC0); b.u(8, level)
     b.ue(0); b.ue(log2_fn - 4); b.ue(2); b.ue(1); b.u(1, 0)
     b.ue(w_mbs - 1); b.ue(h_mbs - 1); b.u(1, 1); b.u(1, 1); b.u(1, 0); b.u(1, 0)
     return h264_nal(0x67, b.rbsp(), sc)
@@ -1014,7 +1014,7 @@ def h264_aud(sc):
     return h264_nal(0x09, [0xF0], sc)
 
 
-def h264_stream(rng, n_au=None, pre=None, lead3=False, small=False):
+def h264_stream(rng, n_au=None, pre=None, lead3=False, small=False, sps_switch=False):
     """An Annex B elementary stream: every access unit starts with an access
     unit delimiter; IDR access units carry SPS and PPS; `pre` access units
     come before the first parameter sets."""
@@ -1023,6 +1023,12 @@ def h264_stream(rng, n_au=None, pre=None, lead3=False, small=False):
     pre = pre if pre is not None else (rng.below(3) if rng.chance(1, 3) else 0)
     stream, aus = [], []
     frame_num, idr_id = 3, 0
+    # sps_switch: from a later IDR on the SPS (same id) has other contents (another level, same size) while
+    # the PPS is repeated octet for octet
+    level, switch_at = 30, None
+    if sps_switch:
+        n_au = max(n_au, 4)
+        switch_at = pre + 1 + rng.below(n_au - 2)
 
     def payload():
         n = rng.below(4 if small else 24)
@@ -1034,10 +1040,12 @@ def h264_stream(rng, n_au=None, pre=None, lead3=False, small=False):
     for i in range(pre + n_au):
         start = len(stream)
         first = start == 0
-        idr = i >= pre and (i == pre or rng.chance(1, 4))
+        idr = i >= pre and (i == pre or i == switch_at or rng.chance(1, 4))
+        if i == switch_at:
+            level = 31
         au = h264_aud(3 if (first and lead3) else 4)
         if idr:
-            au += h264_sps(w_mbs, h_mbs, log2_fn, sc()) + h264_pps(sc())
+            au += h264_sps(w_mbs, h_mbs, log2_fn, sc(), level) + h264_pps(sc())
             frame_num = 0
             idr_id += 1
         for k in range(1 + (rng.below(3) if rng.chance(1, 3) else 0)):
@@ -1087,13 +1095,17 @@ def framer_executions(rng, quick):
         exes.append(framer_exe(st, [], None, out, "directed whole"))
         exes.append(framer_exe(st, [a[0] for a in st["aus"][1:]], None, out, "directed per access unit"))
     # a stream that begins with a 3-octet start code
+    for k in range(2):
+        stw = h264_stream(vlib.Rng(40 + k), n_au=5, pre=0, small=True, sps_switch=True)
+        exes.append(framer_exe(stw, [], None, "annexb", "directed sps switch whole"))
+        exes.append(framer_exe(stw, [a[0] for a in stw["aus"][1:]], None, "annexb", "directed sps switch per access unit"))
     st3 = h264_stream(vlib.Rng(6), n_au=2, pre=0, lead3=True, small=True)
     exes.append(framer_exe(st3, [], None, "annexb", "directed lead3 whole"))
     for c in range(1, min(len(st3["stream"]), 14)):
         exes.append(framer_exe(st3, [c], None, "annexb", "directed lead3 cut"))
     # random streams, several cuttings of each (the same stream must give the same access units)
     for _ in range(60 if quick else 1500):
-        st = h264_stream(rng)
+        st = h264_stream(rng, sps_switch=rng.chance(1, 6))
         n = len(st["stream"])
         out = "annexb" if rng.chance(2, 3) else rng.choice(["len4", "len2", "nalu"])
         exes.append(framer_exe(st, [], rng, out, "random whole"))
@@ -1106,7 +1118,7 @@ def framer_executions(rng, quick):
         exes.append(framer_exe(st, list(range(step, n, step)), rng, out, "random regular"))
     # arbitrary / corrupt input: only 'no sanitizer report' is required
     for _ in range(60 if quick else 2000):
-        st = h264_stream(rng)
+        st = h264_stream(rng, sps_switch=rng.chance(1, 6))
         s2 = list(st["stream"])
         c = rng.below(4)
         if c == 0:
